@@ -19,6 +19,7 @@ Inductive binstr :=
 | BThrow                          (* a THROW / goto bailout under some condition             (choice point) *)
 | BSetjmp                         (* if (setjmp(..)) { retval = -1; goto bailout; } *)
 | BCall                           (* libjpeg call: may longjmp to the handler                (choice point) *)
+| BRealloc (v : nat)              (* v = realloc(v, ..) with NULL test: on failure the old block stays allocated but v is overwritten (choice point) *)
 | BRelease (v : nat)              (* free(v) / free(v[i]) / tj3Destroy(v) / if (v) fclose(v): NULL tolerated *)
 | BReleaseIfFailed (v : nat).     (* if (retval < 0) { free(v); v = NULL; } *)
 
@@ -80,6 +81,17 @@ Definition exec_b (fail_at i : nat) (b : binstr) (s : tst) : tst * outcome :=
       else
         ({| vars := upd (vars s0) v i (Ptr (nextid s0)); heap := nextid s0 :: heap s0; nextid := S (nextid s0); bad := bad s0;
             failed := failed s0; handler := handler s0; cnt := S (cnt s0) |}, Cont)
+  | BRealloc v =>
+      if cnt s =? fail_at then (set_failed (set_vars (tick s) (upd (vars s) v i Null)), Jump)
+      else
+        let s1 := match vars s v i with
+                  | Ptr id => {| vars := vars s; heap := remn id (heap s); nextid := nextid s; bad := (if memn id (heap s) then bad s else S (bad s));
+                                 failed := failed s; handler := handler s; cnt := cnt s |}
+                  | Null => s
+                  | Uninit => add_bad s
+                  end in
+        ({| vars := upd (vars s1) v i (Ptr (nextid s1)); heap := nextid s1 :: heap s1; nextid := S (nextid s1); bad := bad s1;
+            failed := failed s1; handler := handler s1; cnt := S (cnt s1) |}, Cont)
   | BThrow => if cnt s =? fail_at then (set_failed (tick s), Jump) else (tick s, Cont)
   | BSetjmp => ({| vars := vars s; heap := heap s; nextid := nextid s; bad := bad s; failed := failed s; handler := true; cnt := cnt s |}, Cont)
   | BCall => if cnt s =? fail_at then (set_failed (tick (if handler s then s else add_bad s)), Jump) else (tick s, Cont)
